@@ -36,7 +36,7 @@ ASSUMPTIONS = ['golden = the same call evaluated in a fresh interpreter immediat
                '__dict__ surgery) are seen only by the snapshots']
 REQUIRED_COUNTERS = ['histories', 'threaded_histories', 'interleaved_histories', 'calls_with_covariance', 'repeated_identical_calls', 'catalogue_snapshots',
                      'mutable_arguments_checked', 'context_switches_observed', 'results_edited_by_caller', 'calls_with_degenerate_list']
-N = {'quick': (20, 5, 90), 'thorough': (190, 50, 300)}       # histories, threaded histories, pool size   (per shard)
+N = {'quick': (20, 5, 150), 'thorough': (190, 50, 360)}       # histories, threaded histories, pool size   (per shard)
 SHARDS = {'quick': 16, 'thorough': 32}
 MODS = ['constants', 'angles', 'convert', 'statistics', 'survey', 'geodesy', 'ntv2reader', 'transform', 'coord']
 
@@ -404,6 +404,17 @@ def gen_pool(ns, rnd, size):
         lambda: {'fn': 'survey.radiations', 'args': [rnd.uniform(0, 1e6), rnd.uniform(0, 1e7), rnd.uniform(0, 360), rnd.uniform(0, 1e4)]},
         lambda: {'fn': 'survey.joins', 'args': [rnd.uniform(0, 1e6), rnd.uniform(0, 1e7), rnd.uniform(0, 1e6), rnd.uniform(0, 1e7)]},
         lambda: {'fn': 'survey.mets_partial_differentials', 'args': []},
+        lambda: {'fn': 'survey.refractivity_constants', 'args': []},
+        lambda: {'fn': 'survey.part_h2o_vap_press', 'args': [rnd.uniform(-10, 40), rnd.uniform(900, 1050)],
+                 'kwargs': rnd.choice([{'rel_humidity': rnd.uniform(0, 100)}, {'wet_temp': rnd.uniform(-12, -10)}])},
+        lambda: {'fn': 'survey.humidity2part_water_vapour_press', 'args': [rnd.uniform(0, 100), rnd.uniform(-10, 40)]},
+        lambda: {'fn': 'convert.date_to_yyyydoy', 'args': [date()]},
+        lambda: {'fn': 'convert.yyyydoy_to_date', 'args': ['%04d.%03d' % (rnd.randint(1990, 2040), rnd.randint(1, 365))]},
+        lambda: {'fn': rnd.choice(['angles.dec2hpa', 'angles.dec2gon', 'angles.dec2gona', 'angles.dec2ddm', 'angles.dd2sec', 'angles.gon2dec',
+                                   'angles.gon2hp', 'angles.gon2dms', 'angles.gon2rad', 'angles.gon2deca', 'angles.gon2hpa', 'angles.gon2ddm']),
+                 'args': [rnd.uniform(-360, 360)]},
+        lambda: {'fn': rnd.choice(['angles.hp2deca', 'angles.hp2rad', 'angles.hp2gon', 'angles.hp2gona', 'angles.hp2dms', 'angles.hp2ddm']),
+                 'args': [round(rnd.randint(-359, 359) + rnd.randint(0, 59) / 100 + rnd.randint(0, 59) / 10000, 4)]},
         # element-wise use with the readings of several set-ups held in arrays (1-D and 0-d): caller-owned arrays
         lambda: {'fn': rnd.choice(['survey.phase_refractivity', 'survey.group_refractivity']),
                  'args': [rnd.choice([0.85, 0.6328, {'$nd': [0.85, 0.6328, 0.9]}]), rnd.choice([rnd.uniform(-10, 40), {'$nd': [12.5, 20.0, 31.0]}]),
@@ -475,7 +486,7 @@ def gen_pool(ns, rnd, size):
         pool.append({'fn': 'geodesy.vincdir', 'args': [-33.25, 151.5, 45.0, 250000.0, {'$ell': e[0]}]})
     while len(pool) < size:
         pool.append(rnd.choice(gens)())
-    return pool[:max(size, len(gens))]
+    return pool         # every generator once and every fixed group entry, whatever `size` says (never truncated)
 
 
 # ---------------------------------------------------------------------------------------------
